@@ -45,6 +45,8 @@ ASSUMPTIONS = [
     'repartition targets are non-empty, non-negative, non-decreasing and end at the length (other targets are outside '
     'the property; a small malformed stream is run and only reported in the evidence)',
     'errors are compared as ok/err only (not the exception class or message)',
+    'not generated: sort/argsort on arrays containing records (erratic in the eager code itself), argsort at an axis other '
+    'than -1 (returns uninitialised memory on sliced input: a C06 finding), operations on the result of the internal carry',
 ]
 TRUSTED_BASE = [
     'Rocq kernel: coqc 8.16.1 (vm_compute used in examples and in repartition_refuted; native_compute not used)',
@@ -152,6 +154,8 @@ def gen_op(rng, t, n, generic=False):
              'at', 'range', 'range', 'carry', 'reduce', 'sort', 'argsort', 'combinations', 'rpad', 'rpadclip',
              'materialize', 'field', 'fields', 'simplify', 'lazycarry']
     c = rng.choice(names)
+    if c in ('sort', 'argsort') and G.has_kind(t, 'rec'):
+        c = 'reduce'            # sort over records is not a defined operation in this tree (erratic eager results)
     if generic and c in ('carry', 'lazycarry'):
         c = 'materialize'       # carry is an internal operation whose indices must be in range of an unknown length
     if c in ('field', 'fields'):
@@ -181,7 +185,11 @@ def gen_op(rng, t, n, generic=False):
         return [c, ix]
     if c == 'reduce':
         return ['reduce', rng.choice(REDUCERS), rng.choice([-1, -1, ax()]), rng.choice([0, 1]), rng.choice([0, 0, 1])]
-    if c in ('sort', 'argsort'):
+    if c == 'argsort':
+        # only the local branch: the non-local one returns uninitialised memory on sliced input (a C06 finding),
+        # which differs from run to run and so between the two arrays
+        return [c, -1, rng.choice([0, 1]), rng.choice([0, 1])]
+    if c == 'sort':
         return [c, rng.choice([-1, -1, ax()]), rng.choice([0, 1]), rng.choice([0, 1])]
     if c == 'combinations':
         return ['combinations', rng.choice([2, 2, 3]), rng.choice([0, 1]), ax()]
@@ -196,7 +204,10 @@ def gen_virt(rng, i):
     a = G.gen_array(rng, depth=rng.choice([1, 2, 2, 3]), canonical_too=False)
     lay, t, n = a['layout'], a['type'], len(a['vals'])
     cands = []
+    heads = ('np', 'nps', 'empty', 'lo', 'la', 'reg', 'ix', 'ixo', 'bym', 'bim', 'unm', 'un', 'rec', 'par')
     for path, node in G.nodes(lay):
+        if node[0] not in heads:
+            continue            # (gen.nodes also lists the key list of a record)
         if path:
             parent = lay
             for p in path[:-1]:
@@ -874,6 +885,9 @@ def run(cases, tier, rng):
                 veq = fld(so, 'veq')
                 info['value_walks'] += 1
                 if veq is not None and veq[1] == '1':
+                    continue
+                if veq is not None and 'walk-failed' in unparse(veq):
+                    info['uncomparable'] = info.get('uncomparable', 0) + 1     # a result that cannot be re-read
                     continue
                 if veq is None and canon(v[2]) == e[2]:
                     continue
